@@ -14,6 +14,15 @@ CHECKS = {
         "handlers, <=2 actions per handler, 3 event names, posting depth <=3.",
    technique="exhaustive bounded enumeration of handler programs executed on the implementation + trace monitors",
    ref="3/C01"),
+ "C13": dict(cat="model_checking",
+   text="Explicit-state BFS (replay on a freshly booted machine, fork snapshots) over DelayManager operations on the "
+        "machine-wide and a mode-owned manager, clock.schedule_interval tasks and the timer device driven by its "
+        "control events, with time choices on-time / late wake-up / before the deadline; a reference model is "
+        "compared after every transition.",
+   note="Trusted: virtual loop, reference models in props/c13.py. Bounds: BFS depth 5-7 (quick) / 6-10 (thorough), "
+        "names {a,b,c,m}, durations {100,200} ms, intervals {0.25,0.5} s; time by representative points.",
+   technique="explicit-state BFS of the implementation with a reference model (replay + fork snapshots)",
+   ref="3/C13"),
 }
 NOT_YET = "check not built yet in this revision (planned, see DESIGN.md section 7)"
 
@@ -34,7 +43,7 @@ for p in props:
             "technique": c["technique"],
         })
     else:
-        na.append({"property_id": pid, "reason": NA.get(pid, NOT_YET) if (NA := globals().get("NA_REASONS", {})) is not None else NOT_YET})
+        na.append({"property_id": pid, "reason": NOT_YET})
 m = {
  "version": 1,
  "setup_cmd": "./setup.sh",
